@@ -5,6 +5,7 @@ use crate::oracle::groups::*;
 use crate::props::c11::{fw, read_table};
 use crate::runner::*;
 use crate::util::*;
+use proptest::prelude::*;
 use rust_dsymbols::fpgroups::cosets::coset_tables;
 use rust_dsymbols::fpgroups::free_words::FreeWord;
 use serde_json::{json, Value};
@@ -100,7 +101,13 @@ fn check_low(c: &LowCase, obs: &mut Obs) -> Result<(), String> {
         for code in &g {
             ensure!(e.contains(code), "a table with {} rows is not among the {} transitive actions of {} on {} points found by brute force", j, e.len(), c.name, j);
         }
-        ensure!(g.len() == e.len(), "{} has {} conjugacy classes of subgroups of index {}, the enumeration lists {}", c.name, e.len(), j, g.len());
+        if g.len() != e.len() {
+            let missing: Vec<&Vec<usize>> = e.iter().filter(|code| !g.contains(*code)).take(2).collect();
+            return Err(format!(
+                "{} has {} conjugacy classes of subgroups of index {}, the enumeration lists {}; a missing action (BFS code: rows, then per row and generator the images under g and g^-1): {:?}",
+                c.name, e.len(), j, g.len(), missing
+            ));
+        }
     }
     obs.nontrivial(nonnormal);
     obs.classify(count > 10, "> 10 classes");
@@ -156,6 +163,43 @@ pub fn run(ctx: &mut Ctx) {
     // expensive cases first for better load balance
     cases.sort_by_key(|c| std::cmp::Reverse(c.k * c.nr_gens));
     ctx.run_par(&SUB_LOW, cases, Some(&format!("{} (group, k) pairs: every corpus group with <= 4 generators x every k with p(k) * (k!)^(gens-1) <= {}", n, b)));
+
+    // all triangle-like presentations <a,b | a^p, b^q, (ab)^r> in every generator order, and
+    // proptest-generated presentations (random reduced relators and proper powers of short words)
+    ctx.layer("families");
+    let mut fam = vec![];
+    let lim = t.pick(6usize, 7usize);
+    let k2 = max_k(2, b, t.pick(7, 8));
+    for p in 2..=lim {
+        for q in 2..=lim {
+            for r in 2..=lim {
+                let pw = |w: &[i64], e: usize| -> Word { let mut v = vec![]; for _ in 0..e { v.extend_from_slice(w); } v };
+                fam.push(LowCase { name: format!("<a,b | a^{}, b^{}, (ab)^{}>", p, q, r), nr_gens: 2, rels: vec![pw(&[1], p), pw(&[2], q), pw(&[1, 2], r)], k: k2 });
+            }
+        }
+    }
+    let nf = fam.len();
+    ctx.run_par(&SUB_LOW, fam, Some(&format!("all {} presentations <a,b | a^p, b^q, (ab)^r> with 2 <= p, q, r <= {} (both generator orders), index bound {}", nf, lim, k2)));
+
+    ctx.layer("random");
+    let (k2r, k3r) = (max_k(2, b, 7), max_k(3, b, 5));
+    ctx.run_prop(
+        &SUB_LOW,
+        move || {
+            let letter = |n: i64| (1..=n, any::<bool>()).prop_map(|(l, s)| if s { -l } else { l });
+            (2usize..=3).prop_flat_map(move |n| {
+                let rel = prop_oneof![
+                    2 => prop::collection::vec(letter(n as i64), 1..=6),
+                    3 => (prop::collection::vec(letter(n as i64), 1..=3), 2usize..=6).prop_map(|(w, e)| { let mut v = vec![]; for _ in 0..e { v.extend(w.iter()); } v }),
+                ];
+                prop::collection::vec(rel, 1..=4).prop_map(move |rels| {
+                    let rels: Vec<Word> = rels.into_iter().map(|w| free_reduce(&w)).filter(|w| !w.is_empty()).collect();
+                    LowCase { name: format!("random presentation on {} generators", n), nr_gens: n, rels, k: if n == 2 { k2r } else { k3r } }
+                })
+            })
+        },
+        t.pick(600, 12_000),
+    );
 }
 
 pub fn replay(ctx: &mut Ctx, sub: &str, case: &Value) -> Option<Result<(), String>> {
